@@ -9,13 +9,13 @@ LEVEL = "other"
 
 
 def run(ctx, res):
-    res.rules_run += ["C10.index (after the in-place sort the key index is cleared and rebuilt for every position: C06.pair rows of sort / canonicalize_with) — the object stays queryable",
+    res.rules_run += ["C10.index (C06.model restricted to sort / canonicalize_with and to index exactness: after the in-place sort the key index is exact again on every small object) — the object stays queryable",
                       "C10.cover (children canonicalised before the parent is sorted, on every path; numbers replaced unconditionally) = C09.cover",
                       "C10.writes (canonicalisation assigns number payloads and reorders entries; nothing else is written)",
-                      "C10.total (the comparator is the total, position-independent order of C09.order with the value as tie-break)"]
-    C06.pair(ctx, res, only={"sort", "canonicalize_with"})
+                      "C10.total (C06.model on canonicalize_with: the members of every small object end up ordered by the UTF-16 form of their keys, ties by value, whatever their initial order — including a key pair on which code-point and UTF-16 order disagree)"]
+    C06.model_rule(ctx, res, only_index=True, rule="C10.index", ops={"sort", "canonicalize_with"})
     C09.cover_rule(ctx, res, "C10.cover")
-    C09.order_rule(ctx, res, "C10.total")
+    C06.model_rule(ctx, res, rule="C10.total", ops={"canonicalize_with"})
     writes_rule(ctx, res)
     res.notes.append("not decided: idempotence and spelling-independence of the numeric step (json-number / ryu-js); whitespace and escape independence are C01/C02")
 
